@@ -30,6 +30,9 @@ func c18() []*Ob {
 		return false
 	}
 	return []*Ob{
+		{Prop: "C18", ID: "C18.10", Engine: "CONFINE(goroutine)", Floor: 1,
+			Desc:  "the generation list has one writer goroutine: the methods of cache.Cleaner that write generations / lastGen (unlocked on purpose) are reachable from exactly one of the goroutines the repo starts (the clean loop of the cache maintainer; closures handed to helpers such as util.RunEvery count as running on the caller's goroutine, targets of go statements do not) — moving the garbage collection into a goroutine of its own lets CleanEmptyGenerations cut off a generation that Rotate appended in between: its entries are live but never summed or evicted, the cache grows past its limit",
+			Check: func(c *Ctx) { oneMaintenanceGoroutine(c) }},
 		{Prop: "C18", ID: "C18.9", Engine: "LOOPS(every element)", Floor: 1,
 			Desc: "a cleaning pass reaches every bucket: Cleaner.Cleanup has dropped the stale generations from the accounted size (markStale) before it walks the buckets, so the walk calls Cleanup on every bucket and has no early exit — a pass that stops once enough bytes were released leaves entries of stale generations alive in the buckets behind, which the accounted size no longer contains: the cache stays over its limit while reporting it is under",
 			Check: func(c *Ctx) {
